@@ -620,7 +620,7 @@ Boot(s0) ==
       x0 == Ctx0(NULL, s0)
       xw == IF s0.nhr = NoNHR THEN W(x0, s1) ELSE x0
       haveC == chh >= InitH
-      cvs == IF chh = InitH \/ chh = InitH + 1 THEN GenesisVS
+      cvs == IF chh = InitH THEN GenesisVS
              ELSE IF (chh - 1) \in DOMAIN s1.hdr THEN HDR[s1.hdr[chh - 1].hdr].nvs ELSE "PANIC"
       cl == IF haveC /\ cvs # "PANIC" THEN LoadRound(s1, chh, cr, cvs) ELSE [phs |-> {}, pv |-> EmptyFn, pc |-> EmptyFn, bad |-> FALSE]
       cmost == IF haveC /\ cvs # "PANIC" /\ ~cl.bad /\ DOMAIN cl.pc # {}
@@ -629,8 +629,9 @@ Boot(s0) ==
       chdr == IF cmost # "none" /\ cmost \in Labels /\ (\E p \in cl.phs : p.hdr = cmost) THEN cmost ELSE "none"
       cpcp == IF haveC /\ chh > InitH /\ (chh - 1) \in DOMAIN s1.hdr
                 THEN [r |-> s1.hdr[chh - 1].r, pkh |-> s1.hdr[chh - 1].pkh, proofs |-> s1.hdr[chh - 1].proofs] ELSE EmptyPCP
-      vvs == IF vh = InitH \/ vh = InitH + 1 THEN GenesisVS
-             ELSE IF chdr # "none" THEN HDR[chdr].vs ELSE "none"
+      \* the voting height uses the next validators of the committing header, as CommitHeader does while running
+      vvs == IF vh = InitH THEN GenesisVS
+             ELSE IF chdr # "none" THEN HDR[chdr].nvs ELSE "none"
       cpc == RoundOf(s1, chh, cr).pc
       vpcp == IF RoundKnown(s1, chh, cr) THEN [r |-> cr, pkh |-> RoundOf(s1, chh, cr).pcKH, proofs |-> cpc]
               ELSE EmptyPCP
